@@ -4,6 +4,7 @@ import (
 	"bytes"
 	"context"
 	"fmt"
+	"io"
 	"math/big"
 	"net/http"
 	"net/http/httptest"
@@ -27,6 +28,8 @@ import (
 //   call <pipe|http> <hist|-> <describe|unary|producer|exchange> <client|-> [flaw]
 //        flaw = one OTHER defect of the same request (params-extra/renamed/retyped, rows0, rows2, unknown-method,
 //        no-method-key, bad-request-version, route-mismatch, wrong-route-kind, content-type): "other-error" when it wins
+//   conn <hist|-> <kind>/<client|->/<flaw> …   2-6 calls on ONE pipe connection (Server.Serve once); each call is handed
+//        to the model as its own `call pipe …` line and judged by the gate on its own
 //        a real request through Server.Serve (pipe) or HttpServer.ServeHTTP (unary route /{m},
 //        stream-init route /{m}/init): "dispatched" (the handler ran / describe answered) or
 //        "refused kind=<vgi_rpc.error_kind> dir=<direction class of the message>"
@@ -47,6 +50,9 @@ func init() {
 					return true
 				}
 				if len(f) >= 5 && f[0] == "call" && f[2] != "-" && f[2] != "x" && f[4] != "-" {
+					return true
+				}
+				if len(f) >= 3 && f[0] == "conn" && f[1] != "-" && f[1] != "x" {
 					return true
 				}
 			}
@@ -274,6 +280,22 @@ var c10Flaws = []string{"params-extra", "params-renamed", "params-retyped", "row
 
 func c10FlawLate(f string) bool { return strings.HasPrefix(f, "params-") }
 
+// c10Near2: a version with the server's major.minor and any patch (admitted when the server declares st).
+func c10Near2(r *Rng, st string) string {
+	p := strings.Split(st, ".")
+	if len(p) != 3 {
+		return st
+	}
+	return p[0] + "." + p[1] + "." + c10Num(r)
+}
+
+func c10ClientText(arg string) string {
+	if arg == "-" {
+		return ""
+	}
+	return UnXS(arg)
+}
+
 func c10Gen(g *Gen) {
 	// a well-mixed sub-stream: the framework's seeds are shifted copies of one splitmix stream
 	r := NewRng(g.Rng.U64())
@@ -317,6 +339,58 @@ func c10Gen(g *Gen) {
 				}
 			}
 			lines = append(lines, fmt.Sprintf("call %s %s %s %s %s", route, sv, kind, c10Client(r, st), flaw))
+		}
+		// several calls on ONE pipe connection, client versions drawn independently
+		if r.Chance(45) {
+			k := r.Range(2, 6)
+			good := func() string {
+				if st == "" {
+					return c10Client(r, st)
+				}
+				return XS(c10Near2(r, st))
+			}
+			badv := func() string {
+				for {
+					v := c10Client(r, st)
+					if declared, ver := c10Effective(sv); !declared || c10Expect(ver, c10ClientText(v), v != "-") != "admit" {
+						return v
+					}
+				}
+			}
+			pattern := r.Intn(4)
+			toks := make([]string, k)
+			for j := 0; j < k; j++ {
+				var cv string
+				switch pattern {
+				case 0: // compatible first, then bad ones
+					if j == 0 {
+						cv = good()
+					} else {
+						cv = badv()
+					}
+				case 1: // bad first, then compatible
+					if j == 0 {
+						cv = badv()
+					} else {
+						cv = good()
+					}
+				case 2: // alternating
+					if j%2 == 0 {
+						cv = good()
+					} else {
+						cv = badv()
+					}
+				default:
+					cv = c10Client(r, st)
+				}
+				kind := Pick(r, []string{"unary", "unary", "producer", "exchange", "describe"})
+				flaw := "none"
+				if kind == "unary" && r.Chance(15) {
+					flaw = Pick(r, []string{"params-extra", "params-renamed", "params-retyped"})
+				}
+				toks[j] = kind + "/" + cv + "/" + flaw
+			}
+			lines = append(lines, "conn "+sv+" "+strings.Join(toks, " "))
 		}
 		g.Case(lines...)
 	}
@@ -591,6 +665,70 @@ func c10Direction(msg string) string {
 	return "other"
 }
 
+// c10ChunkReader hands the server one call's bytes at a time and reports when the server starts on the next call
+// (everything written before that moment answers the previous calls).
+type c10ChunkReader struct {
+	chunks    [][]byte
+	idx, off  int
+	onAdvance func(i int)
+}
+
+func (r *c10ChunkReader) Read(p []byte) (int, error) {
+	for r.idx < len(r.chunks) && r.off == len(r.chunks[r.idx]) {
+		if r.idx+1 == len(r.chunks) {
+			return 0, io.EOF
+		}
+		r.idx++
+		r.off = 0
+		r.onAdvance(r.idx)
+	}
+	if r.idx >= len(r.chunks) {
+		return 0, io.EOF
+	}
+	n := copy(p, r.chunks[r.idx][r.off:])
+	r.off += n
+	return n, nil
+}
+
+// c10Judge classifies one call's response, runs the property oracle on it and returns the observation.
+func c10Judge(c *Case, l, route, sv, kind, cv string, present bool, flaw string, resp []byte, status, ran int) string {
+	site := route + "-" + kind
+	errKind, msg, isErr, streams := c10Scan(resp)
+	var obs string
+	dispatched, other := false, false
+	switch {
+	case isErr && errKind == "protocol_version_mismatch":
+		obs = "refused kind=" + errKind + " dir=" + c10Direction(msg)
+		if ran != 0 {
+			c.Oracle("handler-ran-despite-refusal", fmt.Sprintf("%s: handler entered %d time(s) although the call was refused", l, ran))
+		}
+		if route == "http" && status != http.StatusBadRequest {
+			obs += fmt.Sprintf(" status=%d", status)
+		}
+	case isErr || status >= 400:
+		obs, other = "other-error", true
+		if strings.Contains(msg, "nil pointer") || strings.Contains(msg, "panicked") {
+			c.Oracle("gate-panicked@"+site, fmt.Sprintf("%s: %s", l, msg))
+		}
+	case kind == "describe" && streams >= 1:
+		obs, dispatched = "dispatched", true
+	case ran == 1:
+		obs, dispatched = "dispatched", true
+	default:
+		obs = fmt.Sprintf("other ran=%d streams=%d status=%d", ran, streams, status)
+	}
+	dir := ""
+	if i := strings.Index(obs, " dir="); i >= 0 {
+		dir = strings.Fields(obs[i+5:])[0]
+	}
+	c10Oracle(c, l, site, sv, kind == "describe", cv, present, flaw, dispatched, other, dir)
+	c.Stat("call-" + site + "-" + strings.Fields(obs)[0])
+	if flaw != "none" {
+		c.Stat("flaw-" + flaw + "-" + strings.Fields(obs)[0])
+	}
+	return obs
+}
+
 func c10Exec(c *Case) {
 	for _, l := range c.Lines {
 		f := strings.Fields(l)
@@ -750,40 +888,80 @@ func c10Exec(c *Case) {
 				c.Out(l, "panic")
 				continue
 			}
-			errKind, msg, isErr, streams := c10Scan(resp)
-			var obs string
-			dispatched, other := false, false
-			switch {
-			case isErr && errKind == "protocol_version_mismatch":
-				obs = "refused kind=" + errKind + " dir=" + c10Direction(msg)
-				if ran != 0 {
-					c.Oracle("handler-ran-despite-refusal", fmt.Sprintf("%s: handler entered %d time(s) although the call was refused", l, ran))
-				}
-				if route == "http" && status != http.StatusBadRequest {
-					obs += fmt.Sprintf(" status=%d", status)
-				}
-			case isErr || status >= 400:
-				obs, other = "other-error", true
-				if strings.Contains(msg, "nil pointer") || strings.Contains(msg, "panicked") {
-					c.Oracle("gate-panicked@"+site, fmt.Sprintf("%s: %s", l, msg))
-				}
-			case kind == "describe" && streams >= 1:
-				obs, dispatched = "dispatched", true
-			case ran == 1:
-				obs, dispatched = "dispatched", true
-			default:
-				obs = fmt.Sprintf("other ran=%d streams=%d status=%d", ran, streams, status)
+			c.Out(l, c10Judge(c, l, route, sv, kind, cv, present, flaw, resp, status, ran))
+		case f[0] == "conn" && len(f) >= 3:
+			// ONE pipe connection carrying several calls; every call is judged by the gate on its own
+			sv := f[1]
+			ran := 0
+			s, _ := c10NewServer(sv, &ran)
+			type call struct {
+				kind, client, flaw string
 			}
-			dir := ""
-			if i := strings.Index(obs, " dir="); i >= 0 {
-				dir = strings.Fields(obs[i+5:])[0]
+			var calls []call
+			var chunks [][]byte
+			bad := false
+			for _, t := range f[2:] {
+				p := strings.Split(t, "/")
+				method := ""
+				if len(p) == 3 {
+					method = map[string]string{"unary": "u", "producer": "p", "exchange": "e", "describe": "__describe__"}[p[0]]
+				}
+				if method == "" {
+					bad = true
+					break
+				}
+				present := p[1] != "-"
+				cv := ""
+				if present {
+					cv = UnXS(p[1])
+				}
+				in := c10Request(method, cv, present, p[2])
+				switch p[0] {
+				case "producer":
+					in = append(in, c10IPC(arrow.NewSchema(nil, nil), 0, arrow.Metadata{}, true)...)
+				case "exchange":
+					in = append(in, c10IPC(c10Schema, 1, arrow.Metadata{}, true)...)
+				}
+				calls = append(calls, call{p[0], p[1], p[2]})
+				chunks = append(chunks, in)
 			}
-			c10Oracle(c, l, site, sv, kind == "describe", cv, present, flaw, dispatched, other, dir)
-			c.Stat("call-" + site + "-" + strings.Fields(obs)[0])
-			if flaw != "none" {
-				c.Stat("flaw-" + flaw + "-" + strings.Fields(obs)[0])
+			if bad {
+				c.Out(l, "err:bad-op")
+				continue
 			}
-			c.Out(l, obs)
+			var out bytes.Buffer
+			bounds := make([]int, len(chunks)+1) // response offset at which call i starts
+			rans := make([]int, len(chunks)+1)
+			rd := &c10ChunkReader{chunks: chunks, onAdvance: func(i int) { bounds[i], rans[i] = out.Len(), ran }}
+			panicked := ""
+			func() {
+				defer func() {
+					if r := recover(); r != nil {
+						panicked = fmt.Sprint(r)
+					}
+				}()
+				s.Serve(rd, &out)
+			}()
+			for i := rd.idx + 1; i <= len(chunks); i++ { // calls the loop never reached end where the output ends
+				bounds[i], rans[i] = out.Len(), ran
+			}
+			resp := out.Bytes()
+			c.Stat(fmt.Sprintf("conn-%d-calls", len(calls)))
+			for i, cl := range calls {
+				ml := fmt.Sprintf("call pipe %s %s %s %s", sv, cl.kind, cl.client, cl.flaw)
+				if panicked != "" && i >= rd.idx {
+					c.Oracle("gate-panicked@pipe-"+cl.kind, fmt.Sprintf("%s (call %d): %s", l, i+1, panicked))
+					c.Out(ml, "panic")
+					continue
+				}
+				present := cl.client != "-"
+				cv := ""
+				if present {
+					cv = UnXS(cl.client)
+				}
+				c.Out(ml, c10Judge(c, fmt.Sprintf("%s (call %d of %d on one connection: %s)", l, i+1, len(calls), ml), "pipe", sv, cl.kind, cv, present, cl.flaw,
+					resp[bounds[i]:bounds[i+1]], 0, rans[i+1]-rans[i]))
+			}
 		default:
 			c.Out(l, "err:bad-op")
 		}
